@@ -229,7 +229,7 @@ func (c *Ctx) c10BoundsAsGiven(P string) Obligation {
 			o.Facts++
 			for _, leaf := range phiLeaves(st.Val) {
 				p, isP := stripConv(leaf).(*ssa.Parameter)
-				if !isP || p.Name() != f {
+				if !isP || identName(p) != f {
 					o.fail(c.A.Pos(st.Pos()), "field %s of the iterator may receive %s: the bounds can be exchanged, and an unbounded end (\"\") then becomes the start", f, desc(leaf, 4))
 				}
 			}
